@@ -17,8 +17,10 @@ INFO = {
                 "prepare/enforce/compare of the four profiles through Profile and PrecisFastInvocation and all argument "
                 "forms, stabilize, Codepoints comparisons, Display of errors) is called under catch_unwind on: every u32 in "
                 "0..=0x10FFFF plus boundary/random values above; ALL strings over a 9-symbol 1-4 byte alphabet up to length "
-                "4 (quick) / 5 (thorough); all strings over 7 space/multi-byte symbols up to length 6 / 8 through the enforce "
-                "paths; random hostile strings and a few of 10^4-10^5 characters. Built with overflow checks and debug "
+                "5 (quick) / 6 (thorough); all strings over 7 space/multi-byte symbols up to length 7 / 9 and all sequences of up to "
+                "5 / 6 block-level symbols (16-byte ASCII blocks, multi-byte runs, space kinds) through the enforce paths; random "
+                "hostile strings; long inputs with the interesting characters at power-of-two byte offsets, same-length variants "
+                "in one reused buffer, owned (String) arguments; a few strings of 10^4-10^5 characters. Built with overflow checks and debug "
                 "assertions on (thorough: also plain release, and the miriops program under Miri). Oracle: no panic payload, "
                 "no death on a signal. Non-trivial = distinct inputs containing a multi-byte character or a non-scalar / "
                 "out-of-range argument.",
@@ -30,11 +32,13 @@ INFO = {
         "rule": "StringClass::allows on IdentifierClass, FreeformClass and user-supplied table classes (7 constant + random "
                 "assignments of the 7 derived values to 12 symbols with and without a registered rule) is compared with a "
                 "per-code-point reference (values from the class under test, context decided by the independent RFC 5892 "
-                "model, position counted in code points, first offender wins). Labels: ALL labels up to length 4 (quick) / 5 "
+                "model, position counted in code points, first offender wins). Labels: ALL labels up to length 5 (quick) / 6 "
                 "(thorough) over a 22-symbol alphabet holding every derived value, every contextual code point, enabling and "
                 "disabling neighbours and 1-4 byte characters; all labels up to length 3 over the 12 symbols per table class; "
                 "constructive valid contextual labels, single edits, random labels with the first offender at every "
-                "position. At a label edge, where RFC 5892 is undefined, BadCodepoint and Undefined are both accepted. "
+                "position; EVERY Unicode scalar value alone and paired with the code points sharing its low 16 bits; ZWNJ "
+                "between runs of 0-70 transparent marks; long labels with the offender at power-of-two byte offsets and "
+                "same-length variants in one reused buffer. At a label edge, where RFC 5892 is undefined, BadCodepoint and Undefined are both accepted. "
                 "Non-trivial = distinct (class, label) whose verdict is decided by a non-PVALID code point.",
         "floor_quick": 100000,
         "technique": T_MODEL,
@@ -44,7 +48,9 @@ INFO = {
         "rule": "each of the eight rule functions (and the rule returned by the registry) is compared with an independent "
                 "three-valued implementation of RFC 5892 A.1-A.9 over the 6.3.0 virama/joining-type/script data: EVERY Unicode "
                 "scalar value as the inspected neighbour in 17 roles; ALL arrangements of 8 joining-type symbols up to length "
-                "6 (quick) / 7, and 7 symbols up to length 8 (thorough), at every position inside and outside the label; all "
+                "7 and 7 symbols up to length 8 (quick) / 8 symbols to 8 and 7 symbols to 9 (thorough), ZWNJ between runs of "
+                "0-70 transparent marks, long labels with contextual characters at power-of-two byte offsets (same-length "
+                "variants in one reused buffer), at every position inside and outside the label; all "
                 "eight rules at every position of constructive, mutated and random labels; registry membership for every "
                 "value 0..=0x10FFFF against the IANA registry. True/false are strict; where a neighbour lies outside the "
                 "label, false and undefined are both accepted (the property permits undefined only there). Non-trivial = "
@@ -57,7 +63,9 @@ INFO = {
         "rule": "prepare and enforce of UsernameCaseMapped / UsernameCasePreserved are compared with a reference pipeline "
                 "(width map from UnicodeData 16.0.0, non-empty, reference IdentifierClass acceptance, per-character lowercase "
                 "for the mapped profile, NFC called directly, non-empty, then the library's own directionality step, which C09 "
-                "owns) on: all strings over the 9-symbol alphabet up to length 4 / 6; generated names and their variants "
+                "owns) on: all strings over the 9-symbol alphabet up to length 5 / 7; long inputs (cores at power-of-two byte "
+                "offsets, runs of combining marks, same-length variants in one buffer), each call preceded by a call of another "
+                "profile on the same input and repeated with an owned argument; generated names and their variants "
                 "(fullwidth capitals, halfwidth katakana + voiced marks, upper-case base + mark where lowercase and NFC do not "
                 "commute, contextual characters, RTL letters/digits with LTR tails), hostile strings. Also: every prepare "
                 "failure is enforce's result. Non-trivial = distinct accepted (profile, input) on which at least two of "
@@ -68,8 +76,9 @@ INFO = {
     },
     "C05": {
         "rule": "OpaqueString prepare/enforce vs reference (non-empty, reference FreeformClass acceptance; every Zs other than "
-                "U+0020 from UnicodeData 16.0.0 mapped to U+0020; NFC direct; non-empty): all strings up to length 5 / 6 over "
-                "{SP, Zs, a, E9, 20AC, 1F600, FF21, A} for a rotating subset (quick) / all (thorough) of the 16 non-ASCII Zs, "
+                "U+0020 from UnicodeData 16.0.0 mapped to U+0020; NFC direct; non-empty): all strings up to length 5 / 7 over "
+                "{SP, Zs, a, E9, 20AC, 1F600, FF21, A} for each of the 16 non-ASCII Zs, long inputs at power-of-two byte offsets, "
+                "white space of every kind at the edges, owned arguments, history pollution by other profiles, "
                 "every Zs in 8 frames, every Unicode scalar value in 3 frames, every canonical decomposition of UnicodeData "
                 "16.0.0 in decomposed form, random passwords. Non-trivial = distinct accepted inputs changed by space mapping "
                 "or NFC, or containing compatibility / upper-case characters that must be preserved.",
@@ -80,9 +89,10 @@ INFO = {
     "C06": {
         "rule": "Nickname prepare/enforce vs a reference loop (up to 4 applications of: non-empty, FreeformClass acceptance, "
                 "split on Zs / join with one space, NFKC direct, non-empty) and the invariant that every accepted result is a "
-                "fixed point of one application: all pairs (and 1/7 resp. all triples) over the 52 characters whose NFKC "
-                "introduces a space plus marks/spaces/multi-byte letters, all strings up to length 4 / 6 over 9 "
-                "representatives, random nicknames. The histogram 'accepted-after-k-applications' shows how deep the "
+                "fixed point of one application: all pairs and triples over the 52 characters whose NFKC "
+                "introduces a space plus marks/spaces/multi-byte letters, all strings up to length 5 / 7 over 9 "
+                "representatives, all sequences of up to 4 / 5 block-level symbols, runs of 0-70 combining marks, long inputs at "
+                "power-of-two byte offsets, owned arguments, history pollution, random nicknames. The histogram 'accepted-after-k-applications' shows how deep the "
                 "iteration was driven. Non-trivial = distinct inputs needing >= 2 applications (accepted or rejected later).",
         "floor_quick": 20000,
         "technique": T_MODEL,
@@ -90,10 +100,11 @@ INFO = {
     },
     "C07": {
         "rule": "families of 4-10 spellings of one name (case, width, spacing, NFC/NFD/NFKC/NFKD forms, one-character edits, "
-                "members invalid for different reasons) for all four profiles: every ordered pair is compared with (1) "
+                "members invalid for different reasons, length extensions by 1/255/256/257/512/65536 bytes, long members "
+                "differing at a power-of-two byte offset) for all four profiles: every ordered pair is compared with (1) "
                 "equality of reference comparison forms, first operand's error first, (2) for usernames/OpaqueString "
-                "enforce(a)==enforce(b) with the library's enforce, (3) the static compare; the recorded matrix is checked for "
-                "reflexivity on accepted strings, symmetry (errors may differ only in which), transitivity over all triples. "
+                "enforce(a)==enforce(b) with the library's enforce, (3) the static compare; a second pair-major pass with the other profiles interleaved must reproduce every result; the recorded "
+                "matrix is checked for reflexivity on accepted strings, symmetry (errors may differ only in which), transitivity over all triples. "
                 "Non-trivial = distinct pairs of different strings with Ok(true), or with exactly one side rejected.",
         "floor_quick": 20000,
         "technique": "runtime monitoring: reference-model oracle plus relational (equivalence) monitors over recorded result matrices",
@@ -113,9 +124,10 @@ INFO = {
     "C09": {
         "rule": "Rules::directionality_rule of both username profiles (and the final verdict of enforce on strings that pass "
                 "the reference pre-steps) vs RFC 5893 section 2 written as six predicates over the 16.0.0 bidi classes: ALL "
-                "sequences of the 23 classes up to length 4 (quick) / 5 (thorough) with one representative per class and with "
+                "sequences of the 23 classes up to length 5 (quick) / 6 (thorough) with one representative per class and with "
                 "random members; EVERY code point assigned in 16.0.0 in 9 templates that separate every pair of classes the "
-                "rule can tell apart (self-checked at start-up); random RTL-heavy labels. Known finding F4 is matched by "
+                "rule can tell apart (self-checked at start-up); random RTL-heavy labels; long labels with the deciding character at power-of-two byte "
+                "offsets. Known finding F4 is matched by "
                 "signature (RFC accepts, library rejects, an NSM is followed by a non-NSM). Non-trivial = distinct class "
                 "sequences containing an R/AL/AN character.",
         "floor_quick": 50000,
@@ -124,8 +136,9 @@ INFO = {
     },
     "C10": {
         "rule": "Rules::case_mapping_rule of UsernameCaseMapped and Nickname vs per-character char::to_lowercase: EVERY "
-                "Unicode scalar value in 7 contexts (alone, after a/A/titlecase/multi-byte prefix, before A, doubled); all "
-                "strings up to length 5 / 6 over 11 cased/uncased symbols; random strings; profile-level effect through "
+                "Unicode scalar value in 7 contexts (alone, after a/A/titlecase/multi-byte prefix, before A, doubled) and next "
+                "to the code points sharing its low 16 bits; all strings up to length 6 / 7 over 11 cased/uncased symbols; "
+                "random strings; long inputs at power-of-two byte offsets; owned (String) arguments must give the same result; profile-level effect through "
                 "UsernameCaseMapped::enforce and Nickname::compare(s, lowercase(s)). Non-trivial = distinct inputs containing "
                 "a character whose lowercase mapping is not itself (bucketed by whether an uppercase letter precedes it).",
         "floor_quick": 500000,
@@ -134,8 +147,9 @@ INFO = {
     },
     "C11": {
         "rule": "Rules::width_mapping_rule of both username profiles (idempotence, and prepare's result) vs the <wide>/<narrow> "
-                "decomposition map of UnicodeData 16.0.0: EVERY Unicode scalar value in 5 contexts; all strings up to length "
-                "5 / 7 over {a, FF21, FF76, FF9E, FFE0, 2460, E9, 1F600}; random strings. Non-trivial = distinct inputs with "
+                "decomposition map of UnicodeData 16.0.0: EVERY Unicode scalar value in 5 contexts and next to its low-16-bit aliases; all strings up to length "
+                "7 / 8 over {a, FF21, FF76, FF9E, FFE0, 2460, E9, 1F600}; random strings; long inputs with the first mapped "
+                "character at power-of-two byte offsets; owned arguments. Non-trivial = distinct inputs with "
                 "a mapped character (bucketed by position and multi-byte prefix) or another compatibility character that must "
                 "be kept.",
         "floor_quick": 500000,
@@ -144,8 +158,10 @@ INFO = {
     },
     "C12": {
         "rule": "Nickname and OpaqueString additional_mapping_rule (idempotence; effect through enforce) vs split/join and "
-                "per-character references over the Zs set of 16.0.0: ALL strings up to length 6 / 7 over {SP, A0, 2003, 3000, "
-                "a, E9, 20AC, 1F600}; each of the 17 Zs at every position of strings up to length 5; EVERY Unicode scalar "
+                "per-character references over the Zs set of 16.0.0: ALL strings up to length 7 / 8 over {SP, A0, 2003, 3000, "
+                "a, E9, 20AC, 1F600}; all sequences of up to 5 / 6 block-level symbols (16/15-byte ASCII blocks, 18/16-byte "
+                "multi-byte runs, space kinds); a space of each kind at every byte offset 0-80; long inputs at power-of-two "
+                "offsets; owned arguments; each of the 17 Zs at every position of strings up to length 5; EVERY Unicode scalar "
                 "value in 4 contexts; long random strings with space runs. Non-trivial = distinct inputs with at least one "
                 "space and one multi-byte character (bucketed by the first action needed).",
         "floor_quick": 500000,
@@ -153,8 +169,9 @@ INFO = {
         "assumptions": COMMON,
     },
     "C13": {
-        "rule": "stabilize is run on EVERY total-or-failing function over n states (n<=5 quick, n<=6 thorough) from every "
-                "start state, with single- and multi-byte state strings and Borrowed/Owned unchanged results, plus chains, "
+        "rule": "stabilize is run on EVERY total-or-failing function over n states (n<=6 quick, n<=7 thorough) from every "
+                "start state, with single- and multi-byte state strings and four result representations (owned; borrowed only "
+                "when unchanged; always a borrowed 'static string; borrowed sub-slice of the argument), plus chains, "
                 "cycles (period 2-7) and tails beyond that bound; the closure logs every call. Oracle: simulation of the "
                 "contract (<=4 applications, first error wins, first f(x)=x wins). Non-trivial = distinct (function, start, "
                 "representation) whose contract needs >=2 applications.",
@@ -190,9 +207,11 @@ INFO = {
         "rule": "Phase A: for generated inputs every profile operation is called as static function, fresh instance and "
                 "long-lived instance with &str / String / Cow::Borrowed / Cow::Owned arguments; contents must be identical. "
                 "Phase B: fresh single-threaded child processes replay a fixed case list in seeded permutations, compared "
-                "with a baseline from another fresh process. Phase C: fresh child processes release 16-64 threads together "
+                "with a baseline from another fresh process. The baseline evaluates every case in its own fresh process (no history). Phase C: fresh child processes release 16-64 threads together "
                 "onto the static functions as their very first library calls; per-thread logs are checked offline against "
-                "the baseline and the number of threads overlapping the first call is counted. The racer program is also run "
+                "the baseline and the number of threads overlapping the first call is counted; rounds alternate between "
+                "random and input-major order. Phase D hammers few inputs that differ in one code point (congruent modulo "
+                "64..65536, different derived property) from 8-32 threads. The racer program is also run "
                 "under ThreadSanitizer (both tiers) and under Miri with many schedule seeds (thorough). Non-trivial = "
                 "distinct accepted-and-changed (profile, op, input) in phase A plus distinct child processes (histories / "
                 "schedules) in phases B/C and sanitizer runs.",
